@@ -351,45 +351,90 @@ func (c *Ctx) HeightMapKeys() []core.Ob {
 		}
 		return constant.StringVal(k.Value), true
 	}
-	// ChunkToSave: MapUpdate{Key: const, Value: call Raw(recv)}
+	// ChunkToSave (and the helpers of the package it hands the height maps to):
+	// MapUpdate{Key: const, Value: call Raw(recv)}, or a table of {key, storage} pairs that a loop saves
 	save := map[string]string{}
-	for _, b := range to.Blocks {
-		for _, in := range b.Instrs {
-			mu, ok := in.(*ssa.MapUpdate)
-			if !ok {
-				continue
+	for _, tf := range c.withPkgCallees(to, 2) {
+		rawInLoop := false
+		for _, b := range tf.Blocks {
+			for _, in := range b.Instrs {
+				mu, ok := in.(*ssa.MapUpdate)
+				if !ok {
+					continue
+				}
+				cl, isRaw := mu.Value.(*ssa.Call)
+				if !isRaw || !strings.HasSuffix(calleeName(cl.Common()), "level.(BitStorage).Raw") {
+					continue
+				}
+				if key, ok := strConst(mu.Key); ok {
+					save[key] = fieldOfHM(cl.Common().Args[0])
+				} else {
+					rawInLoop = true
+				}
 			}
-			key, ok := strConst(mu.Key)
-			if !ok {
-				continue
+		}
+		if !rawInLoop {
+			continue
+		}
+		// the table: elements of a local array whose first field is a constant key and another field a storage
+		type row struct{ key, field string }
+		rows := map[ssa.Value]*row{}
+		for _, b := range tf.Blocks {
+			for _, in := range b.Instrs {
+				st, ok := in.(*ssa.Store)
+				if !ok {
+					continue
+				}
+				fa, ok := st.Addr.(*ssa.FieldAddr)
+				if !ok {
+					continue
+				}
+				ia, ok := fa.X.(*ssa.IndexAddr)
+				if !ok {
+					continue
+				}
+				r := rows[ia]
+				if r == nil {
+					r = &row{}
+					rows[ia] = r
+				}
+				if k, ok := strConst(st.Val); ok {
+					r.key = k
+				} else if f := fieldOfHM(st.Val); f != "" {
+					r.field = f
+				}
 			}
-			if cl, ok := mu.Value.(*ssa.Call); ok && strings.HasSuffix(calleeName(cl.Common()), "level.(BitStorage).Raw") {
-				save[key] = fieldOfHM(cl.Common().Args[0])
+		}
+		for _, r := range rows {
+			if r.key != "" && r.field != "" {
+				save[r.key] = r.field
 			}
 		}
 	}
 	// ChunkFromSave: Store to FieldAddr(HeightMaps literal, F) of NewBitStorage(_, _, Lookup(map, const))
 	load := map[string]string{}
-	for _, b := range from.Blocks {
-		for _, in := range b.Instrs {
-			st, ok := in.(*ssa.Store)
-			if !ok {
-				continue
-			}
-			fa, ok := st.Addr.(*ssa.FieldAddr)
-			if !ok {
-				continue
-			}
-			stt, ok := deref(fa.X.Type()).Underlying().(*types.Struct)
-			if !ok {
-				continue
-			}
-			cl, ok := st.Val.(*ssa.Call)
-			if !ok {
-				continue
-			}
-			if key, ok := storageKey(cl, nil, 0); ok {
-				load[key] = stt.Field(fa.Field).Name()
+	for _, ff := range c.withPkgCallees(from, 2) {
+		for _, b := range ff.Blocks {
+			for _, in := range b.Instrs {
+				st, ok := in.(*ssa.Store)
+				if !ok {
+					continue
+				}
+				fa, ok := st.Addr.(*ssa.FieldAddr)
+				if !ok {
+					continue
+				}
+				stt, ok := deref(fa.X.Type()).Underlying().(*types.Struct)
+				if !ok {
+					continue
+				}
+				cl, ok := st.Val.(*ssa.Call)
+				if !ok {
+					continue
+				}
+				if key, ok := storageKey(cl, nil, 0); ok {
+					load[key] = stt.Field(fa.Field).Name()
+				}
 			}
 		}
 	}
